@@ -43,7 +43,7 @@ ASSUMPTIONS = [
 ]
 HOOK = os.path.join(C.VERIF, 'harness', 'c12_hook.c')
 SHARED_BLOCK = 8388608
-KNOWN_KEYS = (G.KEY_CANCEL, G.KEY_BEGIN, G.KEY_WAITMIX)
+KNOWN_KEYS = (G.KEY_CANCEL, G.KEY_BEGIN, G.KEY_WAITMIX, G.KEY_UNLINK)
 
 
 # ---------------------------------------------------------------------------------- running
@@ -108,20 +108,27 @@ def run_program(P, tag, work, bbexe, deexe, flags=(), timeout=25, bb_text=None, 
     return r
 
 
-def run_all(progs, work, bbexe, deexe, jobs=8, timeout=60, long_timeout=300):
+def run_all(progs, work, bbexe, deexe, jobs=8, timeout=60, long_timeout=240):
     """run every program; a program whose run hit the watchdog is run again alone with a long
     watchdog (the machine may be heavily loaded): only a repeated timeout counts as a hang"""
     results = {}
+    def expects_hang(P):
+        # directed histories of the deadlock / race findings: a hang is the expected observation, do not wait long
+        return bool(P.waitmix_lines) or (P.cfg.shared and P.cfg.delete and P.np > 1 and P.stats['reopen'] > 0)
     def one(x):
         tag, P, flags = x
-        return tag, run_program(P, tag, work, bbexe, deexe, flags, timeout=timeout)
+        return tag, run_program(P, tag, work, bbexe, deexe, flags, timeout=(20 if expects_hang(P) else timeout))
     with cf.ThreadPoolExecutor(max_workers=jobs) as ex:
         for tag, r in ex.map(one, progs):
             results[tag] = r
-    again = [x for x in progs if results[x[0]].timed_out]
-    for tag, P, flags in again:
-        results[tag] = run_program(P, tag + '-again', work, bbexe, deexe, flags, timeout=long_timeout)
-        results[tag].retried = True
+    again = [x for x in progs if results[x[0]].timed_out and not expects_hang(x[1])]
+    def two(x):
+        tag, P, flags = x
+        return tag, run_program(P, tag + '-again', work, bbexe, deexe, flags, timeout=long_timeout)
+    with cf.ThreadPoolExecutor(max_workers=2) as ex:
+        for tag, r in ex.map(two, again):
+            results[tag] = r
+            results[tag].retried = True
     return results, len(again)
 
 
@@ -218,6 +225,15 @@ def judge_run(P, obs, flags, isbb, hang, crash):
     burst-buffer run deviations that match the history of a known finding carry its key."""
     F = []; skip = set()
     who = 'bb' if isbb else 'ref'
+    if isbb and P.cfg.shared and P.cfg.delete and P.np > 1:
+        # re-opening with shared logs and del_on_close: a slow rank's unlink of the previous close may remove the log
+        # file that channel 0 has just re-created, the other channels then fail to open it (NC_ENOENT) and the run hangs
+        for ln, a in P.ann.items():
+            if a.get('kind') == 'open':
+                bad = [q for q in range(P.np) if len(obs.get((ln, q), [])) >= 2 and obs[(ln, q)][1] == '-220']
+                if bad:
+                    return [Finding('oracle', G.KEY_UNLINK, 'ncmpi_open fails with NC_ENOENT on ranks %s (log file unlinked by a slower rank after '
+                                    'channel 0 re-created it)' % bad, ln, bad[0])], {'hang'}
     if hang:
         key = 'bb:hang' if isbb else 'ref:hang'
         stuck = []
@@ -290,8 +306,10 @@ def judge_run(P, obs, flags, isbb, hang, crash):
             elif kind == 'inq':
                 if rc != 0:
                     F.append(Finding('oracle', who + ':numrecs:rc', 'rc %d' % rc, ln, q)); continue
-                got = int(o[2]); want = (a['expect_bb'] if isbb else a['expect'])[q]
-                if got != want:
+                got = int(o[2]); want = a['expect'][q]
+                if isbb and want < got <= a['upper']:
+                    skip.add((ln, q))      # a flush completed a posted nonblocking put before its wait: legitimate
+                elif got != want:
                     if isbb and a['extra'][q] > want and got == a['extra'][q]:
                         F.append(Finding('oracle', G.KEY_CANCEL, 'rank %d sees %d records, default driver %d (cancelled nonblocking put to record %d)'
                                          % (q, got, want, got - 1), ln, q)); skip.add((ln, q))
@@ -373,9 +391,6 @@ def judge(P, r, mobs):
     for key in sorted(set(r.bb) | set(r.de)):
         if key in skip:
             continue
-        an = P.ann.get(key[0], {})
-        if an.get('kind') == 'inq' and an['expect_bb'][key[1]] != an['expect'][key[1]]:
-            continue        # a collective flush completed a pending nonblocking put before its wait: judged by the oracle
         a, b = norm_tokens(r.bb.get(key)), norm_tokens(r.de.get(key))
         if a is not None and a[0] == 'wait' and flags:
             a = [x if ':' not in x or x.startswith('B') else '0:' + x.split(':', 1)[1] for x in a]   # injected statuses judged above
@@ -534,7 +549,8 @@ def make_programs(ctx, n_random):
             ('rounds', 1, 1, False, True, [(0, 1)]), ('rounds', 2, 1, False, False, []), ('rounds', 3, 8, True, True, [(0, 3)]),
             ('rounds', 4, 16, False, True, []), ('rounds', 4, 0, True, False, []),
             ('retain', 1, 0, False, False, []), ('retain', 2, 8, True, False, []), ('retain', 3, 1, False, False, []),
-            ('retain', 2, 16, False, True, [])]:
+            ('retain', 2, 16, False, True, []), ('retain', 4, 8, True, True, []), ('retain', 3, 0, True, True, []),
+            ('waitmix', 2, 0, False, True, []), ('waitmix', 4, 16, True, False, [])]:
         cfg = G.Cfg(np_, hint, shared, delete)
         P = G.Program(rng.fork('d%d' % di), cfg, directed=G.DIRECTED[name])
         progs.append(('d%02d-%s' % (di, name), P, flags)); di += 1
